@@ -34,7 +34,7 @@ func profileFor(prop string) (Profile, []Monitor) {
 	case "C12":
 		return Profile{Hostile: true, SmallStacks: true, Probes: 1, TryRaises: true}, []Monitor{&raiseMon{}}
 	case "C13":
-		return Profile{SmallStacks: true}, []Monitor{&forcedMon{}}
+		return Profile{SmallStacks: true, NoBBGames: true}, []Monitor{&forcedMon{}}
 	case "C14":
 		return Profile{Probes: 1, NoBBGames: true}, []Monitor{&dealMon{}}
 	case "C15":
